@@ -414,10 +414,11 @@ class Desugar(ast.NodeTransformer):
             return ast.copy_location(ast.IfExp(test=test, body=ast.Attribute(value=x, attr=a.value, ctx=ast.Load()), orelse=d), node)
         # partial(F, a, b)(c)  ->  F(a, b, c)
         if isinstance(node.func, ast.Call) and ast.unparse(node.func.func) in ("partial", "functools.partial") and node.func.args \
-                and not any(isinstance(a, ast.Starred) for a in node.func.args + node.args):
+                and not isinstance(node.func.args[0], ast.Starred) \
+                and (not any(isinstance(a, ast.Starred) for a in node.func.args + node.args) or (not node.args and not node.keywords)):
             inner = node.func
             kws = list(inner.keywords) + [k for k in node.keywords]
-            if len({k.arg for k in kws}) == len(kws):
+            if len({k.arg for k in kws}) == len(kws) or not node.keywords:
                 return self.visit_Call(ast.copy_location(ast.Call(func=inner.args[0], args=list(inner.args[1:]) + list(node.args), keywords=kws), node))
         # attrgetter("a")(x)  ->  x.a ;  itemgetter(k)(x) -> x[k]
         if isinstance(node.func, ast.Call) and ast.unparse(node.func.func) in ("attrgetter", "operator.attrgetter") and len(node.func.args) == 1 \
